@@ -32,7 +32,7 @@ PROP = dict(
                  "IsInSubGroup oracle = on curve and [r]P=O by reference double-and-add (subgroup membership of [k]G follows from [r]G=O)",
                  "on the incomplete curve bandersnatch (a non-square) pairs whose affine unified law has a vanishing denominator are skipped (class exceptional_unified_*)",
                  "F41 (bw6-633 G1 / bw6-761 G2 IsInSubGroup accepts order-3 components) is excluded by construction when listed as known; the probe re-observes it"],
-    mandatory_all=_MAND,
+    mandatory_all=_MAND + ["hugebatch", "hugebatch:n/NumCPU>4096=True"],
     jobs=[
         dict(name="law", pkg="c02", run="^TestC02_Law$", shards=G1, checks=(1000, 20000), timeout=(900, 3600)),
         dict(name="law2", pkg="c02", run="^TestC02_Law$", shards=G2_FAST, checks=(600, 12000), timeout=(900, 3600)),
@@ -53,6 +53,9 @@ PROP = dict(
         dict(name="pred4", pkg="c02", run="^TestC02_Pred$", shards=G2_E4, checks=(300, 4000), timeout=(900, 3600), seeds=(2, 4)),
         dict(name="edlaw", pkg="c02", run="^TestC02_EdLaw$", shards=EDWARDS, checks=(2000, 40000), timeout=(900, 3600)),
         dict(name="edpred", pkg="c02", run="^TestC02_EdPred$", shards=EDWARDS, checks=(1500, 30000), timeout=(900, 3600)),
+        # batches around k*NumCPU*4096 points: every slot of BatchJacobianToAffine against its input's reference image (chunking of the
+        # shared parallel helper depends on len/NumCPU and on the remainders)
+        dict(name="hugebatch", pkg="c02", run="^TestC02_HugeBatch$", shards=G1 + G2_FAST + G2_E4, rapid=False, timeout=(900, 3600)),
         dict(name="regress", pkg="c02", run="^TestC02_Regress", rapid=False),
         dict(name="regress_uninit", pkg="c02/uninit", run="^TestC02_RegressF52$", rapid=False),
         # every Edwards point method, each in a fresh child process: cold call == warm call (lazy-init on every path)
